@@ -71,8 +71,9 @@ def scope_for(model, fi, cache):
     return cache[fi.qualname]
 
 
-def check(ctx, prefixes=SCOPE_PREFIXES, P="C11"):
+def check(ctx, prefixes=SCOPE_PREFIXES, P="C11", ids=None):
     model = ctx.model
+    ids = ids or {k: f"{P}.{k}" for k in ("R1", "R2", "R4")}
     if P == "C11":
         ctx.explanations.append(
             "C11: alias-flow taint analysis (NAME / ALIAS / ALIASED). Decided: every application of a dynamic aliaser takes the "
@@ -87,7 +88,7 @@ def check(ctx, prefixes=SCOPE_PREFIXES, P="C11"):
     funcs = [f for f in model.functions.values() if in_scope(f, prefixes)]
 
     # ---------------- R1: aliaser applications
-    ctx.rule(f"{P}.R1", "every application of a dynamic aliaser (call, map, AliasedStr) takes the static alias", floor=10 if P == "C11" else 5)
+    ctx.rule(ids["R1"], "every application of a dynamic aliaser (call, map, AliasedStr) takes the static alias", floor=10 if P == "C11" else 5)
     for fi in funcs:
         sc = scope_for(model, fi, scopes)
         parents = None
@@ -121,7 +122,7 @@ def check(ctx, prefixes=SCOPE_PREFIXES, P="C11"):
             }.get(kind, f"argument is {kind}, not the static alias")
             if is_bad(kind):
                 msg = kind[4:]
-            ctx.check(kind == ALIAS, f"{P}.R1", construct, n, msg, fi, n, detail=f"{how} <- {kind}")
+            ctx.check(kind == ALIAS, ids["R1"], construct, n, msg, fi, n, detail=f"{how} <- {kind}")
 
     if P == "C11":
         # R1b: contract of the flattened-aliases helper
@@ -137,7 +138,7 @@ def check(ctx, prefixes=SCOPE_PREFIXES, P="C11"):
                           f"flattened alias collector yields {k}: the caller applies the dynamic aliaser to its result", fo, n, detail="yield field.alias")
 
     # ---------------- R2: sinks
-    ctx.rule(f"{P}.R2", "every external-key sink receives the alias aliased exactly once", floor=12 if P == "C11" else 3)
+    ctx.rule(ids["R2"], "every external-key sink receives the alias aliased exactly once", floor=12 if P == "C11" else 3)
     sink_classes: Dict[str, List[str]] = {}
     for modname in SINK_MODULES:
         if modname not in model.modules:
@@ -173,7 +174,7 @@ def check(ctx, prefixes=SCOPE_PREFIXES, P="C11"):
                     NAME: "the key is the Python name, not the alias",
                     OTHER: "cannot be shown to be aliaser(alias): its value is not derived from the field alias through the dynamic aliaser",
                 }.get(kind, kind[4:] if is_bad(kind) else kind)
-                ctx.check(ok, f"{P}.R2", construct, c,
+                ctx.check(ok, ids["R2"], construct, c,
                           f"{clsname}({pname}=`{short(arg, 50)}`): {why}", fi, c, detail=f"{pname} <- {kind}")
     if P == "C11":
         schema_sinks(ctx, scopes)
@@ -218,7 +219,7 @@ def check(ctx, prefixes=SCOPE_PREFIXES, P="C11"):
                   badc[0] if badc else None, badc[0].node if badc else None, detail=f"{len(callers)} call site(s), all in _object")
 
     # ---------------- R4: aliaser threading
-    ctx.rule(f"{P}.R4", "an aliaser in scope is forwarded to every package callee that accepts one", floor=6 if P == "C11" else 2)
+    ctx.rule(ids["R4"], "an aliaser in scope is forwarded to every package callee that accepts one", floor=6 if P == "C11" else 2)
     for fi in funcs:
         sc = scope_for(model, fi, scopes)
         owner = model.enclosing_class(fi)
@@ -246,7 +247,7 @@ def check(ctx, prefixes=SCOPE_PREFIXES, P="C11"):
             bound = bind_args(params, c)
             construct = f"{fi.qualname}->{tq.split('.')[-1]}"
             if "aliaser" not in bound:
-                ctx.fail(f"{P}.R4", construct, c,
+                ctx.fail(ids["R4"], construct, c,
                          f"{tq.split('.')[-1]}(...) accepts an `aliaser` but the call does not pass the one in scope: the callee falls back to its default and produces / expects un-aliased keys",
                          fi.module.relpath, c.lineno)
                 continue
@@ -254,7 +255,7 @@ def check(ctx, prefixes=SCOPE_PREFIXES, P="C11"):
             ok = sc.is_aliaser_ref(a) or (isinstance(a, ast.Name) and a.id == "aliaser")
             if isinstance(a, ast.Call) and dotted(a.func) == "opt_or" and a.args and sc.is_aliaser_ref(a.args[0]):
                 ok = True  # opt_or(aliaser, settings.aliaser): the caller's aliaser, defaulted
-            ctx.check(ok, f"{P}.R4", construct, c, f"`aliaser={norm(a)}` is not the aliaser in scope", fi, c, detail="forwarded")
+            ctx.check(ok, ids["R4"], construct, c, f"`aliaser={norm(a)}` is not the aliaser in scope", fi, c, detail="forwarded")
 
     # ---------------- R5: the two resolution points of pending AliasedStr keys
     if P == "C11":
